@@ -865,8 +865,6 @@ def gen_case(rng, solver, big=False, enc=None, space_kind=None):
             "seed": rng.choice([0, 1, 2, 7, 42, rng.randrange(10**6), rng.randrange(10**6), None if rng.random() < 0.3 else 3]),
             "cb_seed": rng.randrange(10**6), "minimize": rng.random() < 0.5, "max_iter": max_iter, "progress": gen_progress(rng, max_iter)}
     sp = gen_space(rng, space_kind, enc)
-    if sp.get("enc") == "pool" and solver == "tabu":  # tabu_search reserves None as "no neighbour" (noted in the report)
-        sp["labels"] = gen_labels(rng, len(sp["table"]), allow_none=False)
     if solver == "anneal":
         case.update(space=sp, start=gen_start(rng, sp), temperature=rng.choice([0.5, 1.0, 3.0, 10.0, 1000.0]),
                     cooling=rng.choice([["float", 0.5], ["float", 0.9], ["float", 0.9995], ["exp", 0.7], ["lin", 0.01], ["lin", 0.5],
@@ -1340,7 +1338,7 @@ def run_part_a(ctx: Ctx):
         "C19/A: float decisions (cooling schedule vs min_temp, random() < exp(-delta/T), accept rules of lns/alns) enter the machines as recorded bits",
         "C19/A: identity of a solution = index of its evaluation; the returned solution is matched by VALUE AND TYPE against deep copies taken at call time",
         "C19/A: seed reproducibility is a property of random.Random (trusted, tested by running each case twice on the same input objects)",
-        "C19/A: tabu cooldown>=1 and a non-empty evolve population are assumed (the code raises IndexError otherwise); a tabu SOLUTION that is None is not generated (tabu_search reserves None for 'no admissible neighbour')",
+        "C19/A: tabu cooldown>=1 and a non-empty evolve population are assumed (the code raises IndexError otherwise); since dcd4794 a tabu SOLUTION may be the object None (corpus/C19/tabu_none_solution.json)",
         "C19/A: shift invariance (f+c gives the same trajectory, objective+c) is a metamorphic oracle for exact-integer objectives only",
     ]
 
